@@ -126,3 +126,144 @@ func edgeLits(from, to *ssa.BasicBlock) []lit {
 	}
 	return out
 }
+
+// canonCond gives a condition a name under which two evaluations of the same side-effect-free test coincide:
+// comparisons by operator and operand names, loads of a receiver field by the field's name (sound only for fields
+// the analysed function does not store to - the caller checks that), everything else by SSA identity.
+func canonCond(v ssa.Value, d int) string {
+	if d > 6 || v == nil {
+		return "?"
+	}
+	switch x := v.(type) {
+	case *ssa.Const:
+		if x.Value == nil {
+			return "nil"
+		}
+		return "k:" + x.Value.ExactString()
+	case *ssa.BinOp:
+		return "(" + canonCond(x.X, d+1) + " " + x.Op.String() + " " + canonCond(x.Y, d+1) + ")"
+	case *ssa.UnOp:
+		if x.Op == token.MUL {
+			if fa, ok := x.X.(*ssa.FieldAddr); ok {
+				if _, isParam := fa.X.(*ssa.Parameter); isParam {
+					return "field#" + itoa(fa.Field%10) + "/" + x.Type().String() + "@" + fa.X.Name() + "." + itoaN(fa.Field)
+				}
+			}
+			if ia, ok := x.X.(*ssa.IndexAddr); ok {
+				return "elem(" + canonCond(ia.X, d+1) + "," + canonCond(ia.Index, d+1) + ")"
+			}
+		}
+		return x.Op.String() + canonCond(x.X, d+1)
+	}
+	return "v:" + v.Name() + "@" + parentName(v)
+}
+
+func itoaN(n int) string {
+	if n == 0 {
+		return "0"
+	}
+	s := ""
+	for n > 0 {
+		s = string(rune('0'+n%10)) + s
+		n /= 10
+	}
+	return s
+}
+
+func parentName(v ssa.Value) string {
+	if in, ok := v.(ssa.Instruction); ok && in.Parent() != nil {
+		return in.Parent().Name()
+	}
+	return ""
+}
+
+// reachableWithout reports whether block target can be reached from fn's entry along a path on which no test says
+// that `want` holds (a canonical condition name with the wanted truth value), where two tests with the same
+// canonical name agree along a path. Knowledge about anything but `keep` names is dropped at loop back edges.
+func reachableWithout(fn *ssa.Function, target *ssa.BasicBlock, wantName string, wantTruth bool) bool {
+	type state struct {
+		b     *ssa.BasicBlock
+		known string
+	}
+	enc := func(m map[string]bool) string {
+		var ks []string
+		for k, v := range m {
+			if v {
+				ks = append(ks, k+"=T")
+			} else {
+				ks = append(ks, k+"=F")
+			}
+		}
+		sortStrings(ks)
+		out := ""
+		for _, k := range ks {
+			out += k + ";"
+		}
+		return out
+	}
+	seen := map[state]bool{}
+	var walk func(b *ssa.BasicBlock, known map[string]bool, steps int) bool
+	walk = func(b *ssa.BasicBlock, known map[string]bool, steps int) bool {
+		if steps > 400 {
+			return true // give up: assume reachable (fails closed)
+		}
+		if v, ok := known[wantName]; ok && v == wantTruth {
+			return false // on this path the wanted fact holds from here on (the field is not stored to)
+		}
+		if b == target {
+			return true
+		}
+		st := state{b, enc(known)}
+		if seen[st] {
+			return false
+		}
+		seen[st] = true
+		if len(b.Instrs) == 0 {
+			return false
+		}
+		ifi, isIf := b.Instrs[len(b.Instrs)-1].(*ssa.If)
+		for si, succ := range b.Succs {
+			next := map[string]bool{}
+			for k, v := range known {
+				next[k] = v
+			}
+			feasible := true
+			if isIf && len(b.Succs) == 2 && b.Succs[0] != b.Succs[1] {
+				for _, l := range condLits(ifi.Cond, si == 0) {
+					name := canonCond(l.V, 0)
+					truth := !l.Neg
+					if old, ok := next[name]; ok && old != truth {
+						feasible = false
+					}
+					next[name] = truth
+				}
+			}
+			if !feasible {
+				continue
+			}
+			if succ.Dominates(b) { // back edge: only the loop-invariant fact survives
+				kept := map[string]bool{}
+				if v, ok := next[wantName]; ok {
+					kept[wantName] = v
+				}
+				next = kept
+			}
+			if walk(succ, next, steps+1) {
+				return true
+			}
+		}
+		return false
+	}
+	if len(fn.Blocks) == 0 {
+		return false
+	}
+	return walk(fn.Blocks[0], map[string]bool{}, 0)
+}
+
+func sortStrings(a []string) {
+	for i := 1; i < len(a); i++ {
+		for j := i; j > 0 && a[j] < a[j-1]; j-- {
+			a[j], a[j-1] = a[j-1], a[j]
+		}
+	}
+}
